@@ -41,7 +41,7 @@ LEVEL_NOTE = ('Trusted: NumPy (long double), Hypothesis, vlib/ref/partition.py '
               'with cell sides >= 0.05 so that the isclose-based boundary-node '
               'detection of the library is unambiguous.')
 DESIGN_REF = 'DESIGN.md section 5, C14'
-BUDGET = {'quick': 8000, 'thorough': 100000}
+BUDGET = {'quick': 6000, 'thorough': 100000}
 TOLERANCES = {
     'limits_given': 'exactly the given numbers (bitwise)',
     'limits_completed': '|got-ref| <= 8*eps*scale (exact on the dyadic '
@@ -701,10 +701,13 @@ def check_index(part, model, where, full=True):
     if ndim == 0:
         return 0
     lists = [ref.probe_values(ax) for ax in model]
+    bs = [ref.boundaries(ax) for ax in model]
+    scales = [ref.scale(ax) for ax in model]
     count = max(len(v) for v in lists)
-    step = 1 if full or count <= 30 else (count + 29) // 30
+    cap = 90 if full else 32      # most telling values come first
+    step = 1
     nprobe = 0
-    for j in range(0, count, step):
+    for j in range(min(count, cap)):
         pt = [v[j % len(v)] for v in lists]
         arg = pt[0] if ndim == 1 else (list(pt) if j % 2 else
                                        np.array(pt))
@@ -726,8 +729,8 @@ def check_index(part, model, where, full=True):
                 raise Violation('C14|index|return-type|ndim>1',
                                 'returned {!r}'.format(got))
             for i, (ax, v, g) in enumerate(zip(model, pt, got)):
-                cell = ref.locate(ax, v)
                 if not floating:
+                    cell = ref.locate(ax, v, bs[i])
                     if isinstance(g, bool) or not isinstance(
                             g, numbers.Integral):
                         raise Violation('C14|index|return-type|int',
@@ -744,7 +747,7 @@ def check_index(part, model, where, full=True):
                             g, numbers.Real):
                         raise Violation('C14|index|return-type|float',
                                         'index is {!r}'.format(type(g)))
-                    fref, ftol = ref.floating_index(ax, v)
+                    fref, ftol = ref.floating_index(ax, v, bs[i])
                     if not abs(float(g) - fref) <= ftol:
                         raise Violation(
                             'C14|index|floating-value|' + _pos_class(ax, v),
@@ -752,8 +755,8 @@ def check_index(part, model, where, full=True):
                             'expected {!r} (tol {:.3g}); boundaries {}'
                             ''.format(where, i, v, g, fref, ftol,
                                       ref.boundaries(ax).tolist()))
-                    back = ref.from_floating(ax, float(g))
-                    if abs(back - v) > 16 * EPS * ref.scale(ax):
+                    back = ref.from_floating(ax, float(g), bs[i])
+                    if abs(back - v) > 16 * EPS * scales[i]:
                         raise Violation(
                             'C14|index|floating-roundtrip|' +
                             _pos_class(ax, v),
@@ -777,7 +780,7 @@ def check_index(part, model, where, full=True):
                                 'p[p.index({!r})] = [{}, {}]'.format(
                                     arg, lo.tolist(), hi.tolist()))
     # one ulp outside: an exception, or the adjacent outer cell
-    for i, ax in enumerate(model):
+    for i, ax in enumerate(model if full else []):
         for side, v in enumerate(ref.outside_values(ax)):
             pt = [0.5 * (a.lo + a.hi) for a in model]
             pt[i] = v
